@@ -41,6 +41,7 @@ SPECIAL_TITLES = [
     "daddy puppy mummy", "sense tests sensors", "bell bela pikk", "radar level civic",
     "!!!", "-- --", "???", "",          # titles without any word: they take a position in the store and in the index all the same
     "1\u00bdin pipe", "5mm\u00b2x50m cable", "a\u0663\u0664\u0665b", "\uff30\uff33\uff15pro",     # non-ASCII numerals inside words
+    "usb\tcharger cable", "line\nbreak title", "next\u0085line here", "a\u001fb unit",      # control characters between words
     "node.js guide", "AT&T sim", "Wi\u2011Fi router", "hand\u2013made soap", "3.5g modem", "a/b test", "rock&roll", "co_op mode",
     "ps 4 console", "mp-3 player", "ab c", "a bc def", "electroencephalographic otorhinolaryngological kit", "Fried rice", "Dairy farm",
 ]
@@ -658,9 +659,18 @@ def gen_histories(prop, lang, rnd, titles, toks, ncases, length=14, adversarial=
                 if prop == "C12" and rnd.random() < 0.15:
                     t = rnd.choice(["", "???", "-- --", "$", "\u0000", "!"])      # a title without any word
                 rating = rnd.randint(0, 3) if small_ratings else rnd.randint(0, 2 ** 31 - 1)
+                w0 = (t.split() or [""])[0]
+                typing = len(w0) >= 3 and rnd.random() < 0.3
+                if typing:
+                    # the user is typing the new title's first word while the record arrives: one more letter per search
+                    k0 = rnd.randint(1, len(w0) - 2)
+                    c.search(sid, w0[:k0], want=["qtok", "fresh"])
                 c.add(sid, nid, t, rating)
                 held.append((t, nid))
                 nid += 1
+                if typing:
+                    c.search(sid, w0[:k0 + 1], want=["qtok", "fresh"])
+                    c.search(sid, w0[:k0 + 2], want=["qtok", "fresh"])
             elif r < (0.42 if prop == "C05" else 0.37):
                 c.op(op="clear", sid=sid)
                 gone = [h[0] for h in held][-6:]
@@ -720,6 +730,23 @@ def gen_histories(prop, lang, rnd, titles, toks, ncases, length=14, adversarial=
                     c.search(sid_b, q, want=["qtok", "fresh"])
         cases.append(c)
     return cases
+
+
+def gen_symbol_query_cases(prop, lang, rnd, titles):
+    """C12 (C09): every non-alphanumeric character of the Latin-1 supplement and of ASCII as a query of its own, padded
+    and doubled - typewriter symbols that look like letters of a table (degree sign / ordinal indicator) included"""
+    c = Case(prop, "symbol-queries", lang=lang)
+    sid = c.new_store(lang)
+    recs = rnd.sample(titles, min(len(titles), 5)) + ["o livro da selva", "forno 200 \u00b0C", "a 1\u00aa vez"]
+    rt = distinct_ratings(rnd, len(recs))
+    for i, t in enumerate(recs):
+        c.add(sid, i + 1, t, rt[i])
+    c.op(op="limit", sid=sid, limit=rnd.choice([2, 3, 10]))
+    syms = [chr(x) for x in list(range(0x21, 0x30)) + list(range(0x3A, 0x41)) + list(range(0x5B, 0x61)) + list(range(0x7B, 0x7F)) + list(range(0xA1, 0xC0)) + [0xD7, 0xF7]
+            if not chr(x).isalnum()]
+    for ch in syms:
+        c.search(sid, rnd.choice([ch, " " + ch + " ", ch + ch, "-" + ch + "-"]), want=["qtok", "fresh"])
+    return [c]
 
 
 def gen_marker_cases(lang, rnd, titles, toks, ncases):
@@ -1281,7 +1308,7 @@ def gen_lsort_cases(rnd, tier):
         cases.append(c)
     # input lengths that are exact multiples of the limit (the chunked selection compacts at 2 x limit), one more, one less
     c = Case("C06", "limitsort-multiples")
-    for limit in range(1, 9 if tier == "quick" else 21):
+    for limit in range(1, 14 if tier == "quick" else 40):      # (std's select_nth sorts slices of <= 16 by insertion)
         for k in (1, 2, 3, 4):
             for off in (-1, 0, 1):
                 m = max(0, k * limit + off)
